@@ -171,7 +171,7 @@ impl<T: TrustProvider> TrustAwarePeerSelector<T> {
         }
 
         // Score each candidate, filtering NaN during collection for efficiency
-        let mut scored: Vec<(NodeInfo, f64)> = candidates
+        let mut scored: Vec<(NodeInfo, f64, [u8; 32])> = candidates
             .iter()
             .filter_map(|node| {
                 let trust = self.get_trust_for_node(&node.id);
@@ -181,23 +181,39 @@ impl<T: TrustProvider> TrustAwarePeerSelector<T> {
                     return None;
                 }
 
+                // Trust is a score in [0, 1]; an out-of-range value from the provider
+                // must not turn the trust factor negative or infinite.
+                let trust = trust.clamp(0.0, 1.0);
+
                 let score = self.compute_score(key, node, trust, config);
                 // Filter NaN during collection rather than after
                 if score.is_nan() {
                     return None;
                 }
-                Some((node.clone(), score))
+                Some((node.clone(), score, *node.id.as_bytes()))
+            })
+            .map(|(node, score, id)| {
+                let mut distance = [0u8; 32];
+                for (out, (a, b)) in distance
+                    .iter_mut()
+                    .zip(id.iter().zip(key.as_bytes().iter()))
+                {
+                    *out = a ^ b;
+                }
+                (node, score, distance)
             })
             .collect();
 
-        // Sort by score descending (higher is better)
-        scored.sort_by(|a, b| b.1.total_cmp(&a.1));
+        // Sort by score descending (higher is better). The f64 score cannot tell
+        // apart ids that agree in their first 16 bytes or lie very close to the key,
+        // so equal scores are ordered by the full 256-bit XOR distance, closest first.
+        scored.sort_by(|a, b| b.1.total_cmp(&a.1).then_with(|| a.2.cmp(&b.2)));
 
         // Take top `count` peers
         scored
             .into_iter()
             .take(count)
-            .map(|(node, _)| node)
+            .map(|(node, _, _)| node)
             .collect()
     }
 
